@@ -90,6 +90,7 @@ def run(run, tier, seed):
     run.sample({"replayed_behaviour": d["replay"][len(d["replay"]) // 2]})
     run.sample({"replayed_behaviour": d2["replay"][len(d2["replay"]) // 2]})
 
+    filter_trace(run, tier, seed)
     rng = random.Random(seed + 12)
     ncase = 36 if tier == "quick" else 400
     tmp = vlib.shm_dir("c12")
@@ -197,6 +198,49 @@ def collision_case(tmp):
         return {"ev": "reads", "id": -12, "ctx": ctx, "panic": se.decode(errors="replace")[-200:] or "exit"}
     t = vlib.parse_nk(vlib.ska_cli(["nk", "--full-info", out + ".skf"])[1].decode())
     return {"ev": "reads", "id": -12, "ctx": ctx, "panic": "", "dict": [[r[0], r[1][0]] for r in t["rows"]]}
+
+
+def filter_trace(run, tier, seed):
+    """Stateful trace validation of the real KmerFilter: reads -> per-window (hash, added-now) events,
+    checked step by step against the model's Bloom/count state (Trace_Filter.tla)."""
+    rng = random.Random(seed + 112)
+    ops, metas = [], []
+    for ei in range(12 if tier == "quick" else 120):
+        k = rng.choice([5, 7, 9, 15, 21, 31])
+        rc = rng.random() < 0.6
+        minc = rng.choice([1, 2, 3, 3, 4, 6])
+        g = gen.rand_seq(rng, rng.randint(3 * k, 6 * k))
+        reads = []
+        for _ in range(rng.randint(5, 30)):
+            n = rng.randint(k, min(len(g), 2 * k + 5))
+            a = rng.randint(0, len(g) - n)
+            s = g[a:a + n]
+            reads.append(revcomp(s) if rng.random() < 0.5 else s)
+        ops.append({"op": "filter_seq", "w": 64, "k": k, "rc": rc, "minc": minc, "reads": [b(r) for r in reads]})
+        metas.append((k, rc, minc))
+    events = []
+    for (k, rc, minc), ev in zip(metas, vlib.skav_parallel("exec", ops, jobs=8)):
+        events.append({"ev": "reset", "minc": minc, "k": k, "rc": rc, "stateful": True})
+        if ev.get("panic"):
+            events.append({"ev": "observe", "h": [0, 0], "pass": "panic", "stateful": True})
+            continue
+        for o in ev["obs"]:
+            events.append({"ev": "observe", "h": o["h"], "pass": o["ord"] == 0, "stateful": True})
+        run.evaluations += 1
+        if minc >= 2:
+            run.nontriv(["ftrace", k, rc, minc, len(ev["obs"])])
+    ok, bad, states = vlib.validate_trace("Trace_Filter", events, "c12f", shards=6, timeout=900)
+    run.states += states
+    run.transitions += len(events)
+    run.events += ok
+    run.traces_validated += sum(1 for e in events if e["ev"] == "reset")
+    for i in bad:
+        j = i
+        while j > 0 and events[j]["ev"] != "reset":
+            j -= 1
+        run.fail({"kind": "filtertrace", "episode": events[j:i + 1][:200], "at": i - j},
+                 "KmerFilter diverges from the model at observation %d (min_count=%s k=%s rc=%s)" %
+                 (i - j, events[j].get("minc"), events[j].get("k"), events[j].get("rc")))
 
 
 LAST = {}
